@@ -42,6 +42,7 @@ type lbInst struct {
 	bindLen  map[*ssa.Parameter]lin
 	bindBool map[*ssa.Parameter]bool
 	bindStr  map[*ssa.Parameter]string // constant string arguments
+	bindByte map[*ssa.Parameter]byte   // constant byte arguments
 	alias    map[ssa.Value]string // "lexer", "file"
 	parent   *lbInst
 }
@@ -73,6 +74,8 @@ type lbEngine struct {
 	scanFns    map[string]bool // functions whose loops are byte scans: checked for unit steps and exhaustive exits
 	progress   bool            // C03/R7: every loop iteration advances the cursor or a counter
 	tiling     bool            // C13/R4: track the Space/Raw/Pos/End stores of tokens and comments
+	bytes      bool            // C03/R9: track what is known about single bytes of the buffer
+	inlineAlso map[string]bool // with shallow: cursor-moving methods that are followed all the same
 	foldEq     bool            // C16/R3: char.EqualFold returns true only for equal lengths, after the last index
 	split      bool            // C12/R5: SplitRawStatements over the contract of Lexer.NextToken (token fields as atoms)
 	tokLen     bool            // C06/R3: track Token.Kind / Token.AsString stores of the token reader; <param> spans '@' + its name
@@ -524,7 +527,7 @@ func (e *lbEngine) run(in *lbInst, entry *lstate) []lbRet {
 			var z []lin
 			if s != nil {
 				s, z = e.phiAssign(in, b, p, s)
-				s = e.boolPhiTransfer(b, p, s)
+				s = e.boolPhiTransfer(in, b, p, s)
 				s = e.dropDead(fn, b, s)
 			}
 			ins = append(ins, s)
@@ -1062,14 +1065,65 @@ func (e *lbEngine) boolPhiGuards(in *lbInst, b *ssa.BasicBlock, ins []*lstate, r
 				add = append(add, lfact{g: e.atom(phi), gp: pol, l: f.l})
 			}
 			res = res.with(add...)
+			for _, bb := range j.bf {
+				if bb.g != 0 {
+					continue
+				}
+				if cur, has := res.byteSet(bb.idx); has && cur == bb.set {
+					continue
+				}
+				res = res.withGuardedByte(e.atom(phi), pol, bb.idx, bb.set)
+			}
 		}
 	}
 	return res
 }
 
+func isByteType(t types.Type) bool {
+	b, ok := t.Underlying().(*types.Basic)
+	return ok && b.Kind() == types.Uint8
+}
+
+// byteConst: v is a byte constant, or a parameter bound to one in this frame.
+func (e *lbEngine) byteConst(in *lbInst, v ssa.Value) (byte, bool) {
+	if k, ok := constInt(v); ok && k >= 0 && k < 256 {
+		return byte(k), true
+	}
+	if p, ok := v.(*ssa.Parameter); ok {
+		if k, ok := in.bindByte[p]; ok {
+			return k, true
+		}
+	}
+	return 0, false
+}
+
+// refineByte: the comparison `val == c` (eq) / `val != c` of a byte of the buffer with a constant.
+func (e *lbEngine) refineByte(in *lbInst, st *lstate, val, cv ssa.Value, eq bool) (*lstate, bool) {
+	c, ok := e.byteConst(in, cv)
+	if !ok {
+		return st, false
+	}
+	aid, ok := e.at.byKey[val]
+	if !ok {
+		return st, false
+	}
+	idx, ok := st.valIdx(aid)
+	if !ok {
+		return st, false
+	}
+	var set bset
+	if eq {
+		set.add(c)
+	} else {
+		set = fullBset()
+		set.del(c)
+	}
+	return st.withByte(idx, set), true
+}
+
 // boolPhiTransfer: on the edge p -> b, what is known under a value of a boolean phi operand is known under the same
 // value of the phi (the operand itself is dead in b).
-func (e *lbEngine) boolPhiTransfer(b, p *ssa.BasicBlock, s *lstate) *lstate {
+func (e *lbEngine) boolPhiTransfer(in *lbInst, b, p *ssa.BasicBlock, s *lstate) *lstate {
 	if s == nil {
 		return nil
 	}
@@ -1083,6 +1137,7 @@ func (e *lbEngine) boolPhiTransfer(b, p *ssa.BasicBlock, s *lstate) *lstate {
 		return s
 	}
 	var add []lfact
+	var addB []bfact
 	for _, instr := range b.Instrs {
 		phi, ok := instr.(*ssa.Phi)
 		if !ok {
@@ -1095,21 +1150,58 @@ func (e *lbEngine) boolPhiTransfer(b, p *ssa.BasicBlock, s *lstate) *lstate {
 		if _, isC := constBool(ed); isC {
 			continue
 		}
+		pa := e.atom(phi)
+		if _, isCmp := ed.(*ssa.BinOp); isCmp && e.bytes {
+			// a comparison evaluated in the predecessor: what it tells under either outcome is told under the same
+			// value of the phi (the compared values are dead after the edge)
+			for _, pol := range []bool{true, false} {
+				rs := e.refine(in, s, ed, pol)
+				if e.trace && os.Getenv("VERIF_LB_BYTEDEBUG") != "" {
+					fmt.Printf("LB PHICMP %s.%s edge %s pol=%v\n   s  %s\n   rs %s\n", in.fn.Name(), phi.Name(), ed.String(), pol, e.at.showState(s), e.at.showState(rs))
+				}
+				if rs == nil {
+					continue
+				}
+				for _, f := range rs.f {
+					if f.g == 0 && !s.idx[f.key()] {
+						add = append(add, lfact{g: pa, gp: pol, l: f.l})
+					}
+				}
+				for _, bb := range rs.bf {
+					if bb.g != 0 {
+						continue
+					}
+					if cur, has := s.byteSet(bb.idx); has && cur == bb.set {
+						continue
+					}
+					addB = append(addB, bfact{pa, pol, bb.idx, bb.set})
+				}
+			}
+			continue
+		}
 		ga, ok := e.at.byKey[ed]
 		if !ok {
 			continue
 		}
-		pa := e.atom(phi)
 		for _, f := range s.f {
 			if f.g == ga {
 				add = append(add, lfact{g: pa, gp: f.gp, l: f.l})
 			}
 		}
+		for _, b := range s.bf {
+			if b.g == ga {
+				addB = append(addB, bfact{pa, b.gp, b.idx, b.set})
+			}
+		}
 	}
-	if len(add) == 0 {
+	if len(add) == 0 && len(addB) == 0 {
 		return s
 	}
-	return s.with(add...)
+	out := s.with(add...)
+	for _, b := range addB {
+		out = out.withGuardedByte(b.g, b.gp, b.idx, b.set)
+	}
+	return out
 }
 
 // refine: the state with cond assumed to be pol (nil when that is contradictory).
@@ -1161,6 +1253,14 @@ func (e *lbEngine) refine(in *lbInst, st *lstate, cond ssa.Value, pol bool) *lst
 		switch {
 		case isIntType(x.X.Type()):
 			if !isCountType(x.X.Type()) {
+				if e.bytes && isByteType(x.X.Type()) && (op == token.EQL || op == token.NEQ) {
+					if ns, done := e.refineByte(in, st, x.X, x.Y, op == token.EQL); done {
+						return ns
+					}
+					if ns, done := e.refineByte(in, st, x.Y, x.X, op == token.EQL); done {
+						return ns
+					}
+				}
 				// a decoded rune that equals a constant other than utf8.RuneError was decoded from at least one
 				// byte: utf8.DecodeRune*(s) returns (RuneError, 0) for an empty s
 				if op == token.EQL {
@@ -1256,7 +1356,7 @@ func (e *lbEngine) activate(st *lstate, g atomID, pol bool) *lstate {
 			return nil
 		}
 	}
-	return st.with(add...)
+	return st.with(add...).activateBytes(g, pol)
 }
 
 // execBlock interprets the instructions of b from st and returns the state on each outgoing edge.
@@ -1321,7 +1421,17 @@ func (e *lbEngine) execBlock(in *lbInst, b *ssa.BasicBlock, st *lstate, rets *[]
 					for _, f := range st.f {
 						fs = append(fs, lfact{g: f.g, gp: f.gp, l: f.l.subst(e.P, linAtom(via))})
 					}
-					st = emptyState().with(fs...).eq(linAtom(e.P), l)
+					old := st
+					st = emptyState().with(fs...)
+					if st != nil {
+						for _, b := range old.bf {
+							st.bf = append(st.bf, bfact{b.g, b.gp, b.idx.subst(e.P, linAtom(via)), b.set})
+						}
+						for _, b := range old.bv {
+							st.bv = append(st.bv, bval{b.v, b.idx.subst(e.P, linAtom(via))})
+						}
+					}
+					st = st.eq(linAtom(e.P), l)
 				} else {
 					if ok {
 						st = st.eq(linAtom(pp), l)
@@ -1360,9 +1470,24 @@ func (e *lbEngine) execBlock(in *lbInst, b *ssa.BasicBlock, st *lstate, rets *[]
 		case *ssa.Lookup:
 			if isStringType(x.X.Type()) {
 				e.indexOb(in, st, x, x.X, x.Index)
+				if e.trace && os.Getenv("VERIF_LB_BYTEDEBUG") != "" {
+					fmt.Printf("LB LOOKUP %s in %s bytes=%v alias=%q\n", x.Name(), in.fn.Name(), e.bytes, e.aliasOf(in, x.X))
+				}
+				if e.bytes && e.aliasOf(in, x.X) == "buffer" {
+					if idx, ok := e.linear(in, x.Index); ok {
+						a := e.atom(x)
+						st = st.eliminate(e.at, map[atomID]bool{a: true}).withVal(a, idx)
+					}
+				}
 			}
 		case *ssa.Index:
 			e.indexOb(in, st, x, x.X, x.Index)
+			if e.bytes && isStringType(x.X.Type()) && e.aliasOf(in, x.X) == "buffer" {
+				if idx, ok := e.linear(in, x.Index); ok {
+					a := e.atom(x)
+					st = st.eliminate(e.at, map[atomID]bool{a: true}).withVal(a, idx)
+				}
+			}
 		case *ssa.IndexAddr:
 			e.indexOb(in, st, x, x.X, x.Index)
 		case *ssa.Slice:
@@ -1461,6 +1586,9 @@ func (e *lbEngine) execBlock(in *lbInst, b *ssa.BasicBlock, st *lstate, rets *[]
 			}
 			return nil
 		case *ssa.Panic:
+			if e.bytes && e.record && in.fn.Name() == "peekDelimiter" {
+				e.requireAt(st, in.fn, x, "C03/R9", "peekDelimiter: the byte under the cursor is a quote (the delimiter panic is unreachable)", []string{"every byte value is excluded on the way to the panic"}, []lin{linConst(-1)})
+			}
 			return nil
 		case *ssa.Jump:
 			return []*lstate{st}
@@ -1610,7 +1738,7 @@ func (e *lbEngine) execCall(in *lbInst, st *lstate, call *ssa.Call) *lstate {
 		}
 		return st
 	}
-	if e.shallow && callee.Signature.Recv() != nil && len(com.Args) > 0 && e.aliasOf(in, com.Args[0]) == "lexer" && e.movesCursor(callee) && !(e.shallowLeaf && e.isLeafHelper(callee)) {
+	if e.shallow && callee.Signature.Recv() != nil && len(com.Args) > 0 && e.aliasOf(in, com.Args[0]) == "lexer" && e.movesCursor(callee) && !(e.shallowLeaf && e.isLeafHelper(callee)) && !e.inlineAlso[callee.Name()] {
 		// the callee only moves the cursor forward (it has no other access to Lexer.pos than skip/skipN)
 		var grow []lfact
 		for _, f := range st.f {
@@ -1665,6 +1793,20 @@ func (e *lbEngine) inline(in *lbInst, st *lstate, call *ssa.Call, callee *ssa.Fu
 		switch {
 		case e.aliasOf(in, a) == "lexer" || e.aliasOf(in, a) == "file":
 			ni.alias[p] = e.aliasOf(in, a)
+		case e.bytes && isByteType(p.Type()):
+			if k, ok := constInt(a); ok {
+				if ni.bindByte == nil {
+					ni.bindByte = map[*ssa.Parameter]byte{}
+				}
+				ni.bindByte[p] = byte(k)
+			} else if ap, ok := a.(*ssa.Parameter); ok {
+				if k, ok := in.bindByte[ap]; ok {
+					if ni.bindByte == nil {
+						ni.bindByte = map[*ssa.Parameter]byte{}
+					}
+					ni.bindByte[p] = k
+				}
+			}
 		case isIntType(p.Type()):
 			if l, ok := e.linear(in, a); ok {
 				ni.bindLin[p] = l
@@ -1693,6 +1835,9 @@ func (e *lbEngine) inline(in *lbInst, st *lstate, call *ssa.Call, callee *ssa.Fu
 				}
 			}
 		}
+	}
+	if e.bytes && e.record && callee.Name() == "peekDelimiter" {
+		e.requireAt(st, callee, call, "C03/R9", "peekDelimiter: the byte under the cursor is a quote (the delimiter panic is unreachable)", []string{"context reached"}, []lin{linConst(0)})
 	}
 	// C14/R10: the window compared with a comment terminator does not overlap the opener
 	if e.scanNeed != nil && e.record && callee.Name() == "slice" && e.scanFns[in.fn.Name()] && len(com.Args) == 3 {
@@ -1759,7 +1904,18 @@ func (e *lbEngine) inline(in *lbInst, st *lstate, call *ssa.Call, callee *ssa.Fu
 			frame = append(frame, f)
 		}
 	}
-	cst := emptyState().with(passed...)
+	cst := emptyState().with(passed...).carry(st)
+	if e.bytes && cst != nil {
+		for i, p := range callee.Params {
+			if i < len(com.Args) && isByteType(p.Type()) {
+				if aid, ok := e.at.byKey[com.Args[i]]; ok {
+					if idx, ok := st.valIdx(aid); ok {
+						cst = cst.withVal(e.atom(p), idx)
+					}
+				}
+			}
+		}
+	}
 	finish := func(post *lstate) *lstate {
 		if post == nil {
 			return nil
@@ -1827,6 +1983,14 @@ func (e *lbEngine) inline(in *lbInst, st *lstate, call *ssa.Call, callee *ssa.Fu
 				name = fmt.Sprintf("%s#%d", name, i)
 			}
 			switch {
+			case e.bytes && isByteType(t):
+				if aid, ok := e.at.byKey[v]; ok {
+					if idx, ok := s.valIdx(aid); ok {
+						a := e.atom(call)
+						keep[a] = true
+						s = s.withVal(a, idx)
+					}
+				}
 			case isIntType(t):
 				if l, ok := e.linear(r.in, v); ok {
 					a := e.at.get(target, name, false)
@@ -1908,6 +2072,15 @@ func (e *lbEngine) inline(in *lbInst, st *lstate, call *ssa.Call, callee *ssa.Fu
 				add = append(add, lfact{g: g, gp: side.pol, l: f.l})
 			}
 			post = post.with(add...)
+			for _, bb := range j.bf {
+				if bb.g != 0 {
+					continue
+				}
+				if cur, has := post.byteSet(bb.idx); has && cur == bb.set {
+					continue
+				}
+				post = post.withGuardedByte(g, side.pol, bb.idx, bb.set)
+			}
 		}
 	}
 	if os.Getenv("VERIF_LB_LIVEDEBUG") != "" && !e.lostDumped {
@@ -2399,6 +2572,62 @@ func (e *lbEngine) splitPieceStore(in *lbInst, stp **lstate, x *ssa.Store) bool 
 	st = st.eliminate(e.at, map[atomID]bool{last: true}).eq(linAtom(last), endL)
 	*stp = st
 	return true
+}
+
+// delimiterPanicDead: the "BUG: invalid delimiter" panic of (*Lexer).peekDelimiter is unreachable — decided by
+// interpreting consumeToken with byte facts: the literal readers are entered only after a quote was seen at the offset
+// the cursor is then moved to. Returns the number of calling contexts and the failure details.
+func (w *World) delimiterPanicDead() (contexts int, failures []string) {
+	if w.delimDone {
+		return w.delimCtx, w.delimFail
+	}
+	w.delimDone = true
+	root := w.fn(w.Mem, "(*Lexer).consumeToken")
+	if root == nil || w.fn(w.Mem, "(*Lexer).peekDelimiter") == nil {
+		w.delimFail = []string{"(*Lexer).consumeToken / peekDelimiter not found"}
+		return 0, w.delimFail
+	}
+	defer debug.SetGCPercent(debug.SetGCPercent(1000))
+	e := w.newLexBounds()
+	e.bytes, e.shallow, e.shallowLeaf = true, true, true
+	e.inlineAlso = map[string]bool{}
+	// the literal readers that call peekDelimiter are followed; everything else only moves the cursor
+	pd := w.fn(w.Mem, "(*Lexer).peekDelimiter")
+	for _, cs := range w.callersOf(pd) {
+		e.inlineAlso[cs.Parent().Name()] = true
+	}
+	e.trace = verboseRule() != "" && verboseRule() != "1" && strings.HasPrefix("C03/R9", verboseRule())
+	e.runRoot(root, map[string]bool{"noPanic": false})
+	e.runRoot(root, map[string]bool{"noPanic": true})
+	for _, ob := range e.results() {
+		if ob.rule != "C03/R9" {
+			continue
+		}
+		w.delimCtx += ob.total
+		if ob.failed > 0 {
+			for d := range ob.details {
+				w.delimFail = append(w.delimFail, d)
+			}
+		}
+	}
+	if w.delimCtx == 0 {
+		w.delimFail = append(w.delimFail, "peekDelimiter was not reached by the interpretation of consumeToken")
+	}
+	sort.Strings(w.delimFail)
+	return w.delimCtx, w.delimFail
+}
+
+// ruleC03R9: the one panic with a non-*Error payload that the residual analysis (C03/R3, C04/R2) cannot decide.
+func ruleC03R9(w *World, r *Report) {
+	const rule = "C03/R9"
+	r.rule(rule, "the \"BUG: invalid delimiter\" panic of (*Lexer).peekDelimiter is unreachable: consumeToken enters the string/bytes readers only on paths on which the byte at the offset the cursor is then moved to was compared equal to '\"' or '\\'' — LEXBOUNDS with byte facts (what is known about Buffer[idx], idx a linear term), literal readers followed, other lexer methods only moving the cursor", 1)
+	n, fails := w.delimiterPanicDead()
+	construct := "(*Lexer).peekDelimiter: delimiter panic"
+	if len(fails) > 0 {
+		r.bad(rule, construct, w.pos(w.fn(w.Mem, "(*Lexer).peekDelimiter").Pos()), strings.Join(fails, " | "))
+	} else {
+		r.ok(rule, construct, w.pos(w.fn(w.Mem, "(*Lexer).peekDelimiter").Pos()), fmt.Sprintf("the panic is not reached in any of the %d calling contexts", n))
+	}
 }
 
 // ruleC16R3: the case-insensitive comparison behind IsKeywordLike / IsIdent is a comparison of whole strings.
